@@ -120,6 +120,11 @@ impl Engine {
     /// a third of one CPU although at least one of its threads wanted to run (sampled 5 times).
     /// A wedged engine (every thread asleep) and a busy one (CPU consumed) are not starved.
     pub fn starved(&self, cpu_before_ms: Option<u64>, wall: Duration) -> bool {
+        // the harness itself may be the one that cannot run (its reader threads stamp lines
+        // when they get to read them): five 5 ms sleeps that take more than 150 ms extra
+        if harness_overloaded() {
+            return true;
+        }
         let (Some(a), Some(b)) = (cpu_before_ms, self.cpu_ms()) else { return false };
         let used = b.saturating_sub(a);
         if used * 3 >= wall.as_millis() as u64 {
@@ -287,6 +292,15 @@ impl Drop for Engine {
         let _ = self.child.kill();
         let _ = self.child.wait();
     }
+}
+
+/// Is this very process being kept from running?  Five 5 ms sleeps that take more than 150 ms extra.
+pub fn harness_overloaded() -> bool {
+    let t = Instant::now();
+    for _ in 0..5 {
+        std::thread::sleep(Duration::from_millis(5));
+    }
+    t.elapsed() > Duration::from_millis(25 + 150)
 }
 
 pub fn is_panic_line(line: &str) -> bool {
